@@ -50,6 +50,9 @@ def units(tier, seed):
             for minimize in (False, True):
                 us.append({"kind": "gp", "weights": weights, "size": size, "minimize": minimize,
                            "max_dev": 2 if tier == "quick" else 3, "max_execs": 400 if tier == "quick" else 8000})
+                if weights in ([1, 1, 2], [2, 1, 1]) and size in (4, 5):
+                    us.append({"kind": "gp", "weights": weights, "size": size, "minimize": minimize, "order": "elitism-last",
+                               "max_dev": 2 if tier == "quick" else 3, "max_execs": 600 if tier == "quick" else 8000})
     return us
 
 
@@ -149,8 +152,12 @@ def run_gp(unit) -> UnitResult:
                 targets.append((generation, target_size))
                 return super().iterate(problem, evaluator, representation, random, population, target_size, generation)
 
-        step = ParallelStep([ObservedElitism(), NoveltyStep(), SequenceStep(TournamentSelection(2), GenericCrossoverStep(1), GenericMutationStep(1))],
-                            list(unit["weights"]))
+        if unit.get("order") == "elitism-last":
+            step = ParallelStep([SequenceStep(TournamentSelection(2), GenericCrossoverStep(1), GenericMutationStep(1)), NoveltyStep(), ObservedElitism()],
+                                list(reversed(unit["weights"])))
+        else:
+            step = ParallelStep([ObservedElitism(), NoveltyStep(), SequenceStep(TournamentSelection(2), GenericCrossoverStep(1), GenericMutationStep(1))],
+                                list(unit["weights"]))
         gp = GeneticProgramming(problem, EvaluationBudget(10**9), rep, random=src, tracker=tracker, population_size=size, step=step)
         gens = {"n": 0}
 
